@@ -396,6 +396,9 @@ class ExprMixin(object):
             return self.py_in(a, b, st)
         if isinstance(op, ast.NotIn):
             return z3.Not(self.py_in(a, b, st))
+        hook = self._op_hook(type(op).__name__, a, b)
+        if hook is not None:
+            return hook.t
         x, y = self.num(a), self.num(b)
         if isinstance(op, ast.Lt):
             return x < y
@@ -406,6 +409,18 @@ class ExprMixin(object):
         if isinstance(op, ast.GtE):
             return x >= y
         raise OutsideSubset("comparison operator")
+
+    def _op_hook(self, opname, a, b):
+        """operators on opaque sorts declared by the sidecar: reg.operators[(sort, 'Sub'|'Gt'|..., sort)] = (result type, function name):
+        an uninterpreted total function of the operands (the sidecar states in its note what is assumed of it)"""
+        if isinstance(a.ty, U) and isinstance(b.ty, U):
+            h = getattr(self.reg, "operators", {}).get((a.ty.name, opname, b.ty.name))
+            if h is not None:
+                mode = h[2] if len(h) > 2 else ""
+                x, y = (b, a) if "swap" in mode else (a, b)
+                r = core.ufun("op_" + h[1], [x, y], h[0])
+                return V(BOOL, z3.Not(r.t)) if "not" in mode else r      # derived comparisons of a total order: a < b is not (a >= b), ...
+        return None
 
     def num(self, v):
         if v.ty in (INT, REAL):
@@ -586,6 +601,9 @@ class ExprMixin(object):
                 if bad is not None:
                     self.do_raise(bad, "TypeError")
             return res
+        hook = self._op_hook(type(op).__name__, a, b)
+        if hook is not None:
+            return [(st, hook)]
         raise OutsideSubset("binary %s on %r, %r" % (type(op).__name__, a.ty, b.ty))
 
     def list_concat(self, a, b, st):
